@@ -71,6 +71,25 @@ func c07GeneratedContig() []byte {
 	return []byte(gb.String())
 }
 
+// c07GeneratedRich: the generated record with a hand-written feature added: a location wrapped over two lines, a literal
+// qualifier continued on a second line, a quoted value of three lines, repeated names after /translation, a toggle.
+func c07GeneratedRich() []byte {
+	s := string(c07GeneratedFull())
+	extra := "     tRNA            complement(join(5..12,\n" +
+		"                     20..28))\n" +
+		"                     /anticodon=(pos:complement(7..9),aa:Met,\n" +
+		"                     seq:cat)\n" +
+		"                     /translation=\"MKVLAAGIT\n" +
+		"                     MKV\"\n" +
+		"                     /db_xref=\"A:1\"\n" +
+		"                     /db_xref=\"B:2\"\n" +
+		"                     /note=\"first line\n" +
+		"                     second line\n" +
+		"                     third\"\n" +
+		"                     /pseudo\n"
+	return []byte(strings.Replace(strings.Replace(s, "ORIGIN", extra+"ORIGIN", 1), "GEN1 ", "GENR ", 1))
+}
+
 // c07GeneratedBoth: a record that has a CONTIG line and an ORIGIN block.
 func c07GeneratedBoth() []byte {
 	gb := seqio.GenBank{
@@ -108,9 +127,10 @@ func c07LoadSeeds() {
 		c07Seeds["gen-contig"] = c07GeneratedContig()
 		c07Seeds["gen-fasta"] = c07GeneratedFasta()
 		c07Seeds["gen-both"] = c07GeneratedBoth()
+		c07Seeds["gen-rich"] = c07GeneratedRich()
 		two := append(append([]byte{}, c07Seeds["gen-full"]...), c07Seeds["gen-contig"]...)
 		c07Seeds["gen-two"] = append(two, c07Seeds["gen-full"]...)
-		c07Names = append(c07Names, "gen-full", "gen-contig", "gen-fasta", "gen-two", "gen-both")
+		c07Names = append(c07Names, "gen-full", "gen-contig", "gen-fasta", "gen-two", "gen-both", "gen-rich")
 		// warm the process-global qualifier registries so that outcomes do not depend on scan history
 		for _, n := range c07Names {
 			c07Scan(c07Seeds[n], "full", 0)
@@ -357,6 +377,13 @@ func c07Mutate(seed []byte, c c07Case) ([]byte, bool) {
 			return finishMut(append(append(append([]byte(nil), data[:l[0]]...), nl...), data[l[1]:]...), c), true
 		}
 		return nil, false
+	case "align":
+		// the seed preceded by a padding record of exactly A bytes: byte 4096k - A of the seed is the first byte of a read block
+		pad := c07PadRecord(c.A)
+		if pad == nil {
+			return nil, false
+		}
+		return finishMut(append(pad, data...), c), true
 	case "eolmix":
 		// mixed line endings: line A (of the LF or CRLF rendering) gets its ending toggled (B=0), an empty line
 		// ending in LF (B=1) or CRLF (B=2) after it, or a bare CR as its ending (B=3)
@@ -403,6 +430,29 @@ func c07Mutate(seed []byte, c c07Case) ([]byte, bool) {
 
 var reKeyLine = regexp.MustCompile(`^     ([A-Za-z_'0-9-]+)( +)\S`)
 var reDigits = regexp.MustCompile(`[0-9]+`)
+
+const c07PadHead = "LOCUS       PAD                        0 bp    DNA     linear   UNA 01-JAN-2000\nDEFINITION  pad.\nACCESSION   PAD\nVERSION     PAD.1\nKEYWORDS    .\nSOURCE      s\n  ORGANISM  s\n            A.\nCOMMENT     "
+
+var c07PadMin = len(c07PadHead) + len("x\n//\n")
+
+// c07PadRecord: a valid GenBank record without residues of exactly size bytes (nil when size is too small).
+func c07PadRecord(size int) []byte {
+	tail := "\n//\n"
+	extra := size - len(c07PadHead) - len(tail)
+	if extra < 1 {
+		return nil
+	}
+	var b []byte
+	b = append(b, c07PadHead...)
+	for extra > 90 {
+		b = append(b, bytes.Repeat([]byte("x"), 60)...)
+		b = append(b, "\n            "...)
+		extra -= 73
+	}
+	b = append(b, bytes.Repeat([]byte("x"), extra)...)
+	b = append(b, tail...)
+	return b
+}
 
 func finishMut(data []byte, c c07Case) []byte {
 	if c.CRLF {
@@ -492,6 +542,16 @@ func c07Eval(c c07Case) (ok bool, sig, detail string) {
 		}
 	}
 	switch c.Mut {
+	case "align":
+		// where the read blocks fall must not matter: the padding record, then exactly the records of the seed
+		if out.errText != "" || len(out.recs) != len(base.recs)+1 {
+			return false, "block-alignment", what + fmt.Sprintf(": %d records, error %q; want the padding record and the %d records of the seed", len(out.recs), out.errText, len(base.recs))
+		}
+		for i := range base.recs {
+			if out.recs[i+1] != base.recs[i] {
+				return false, "block-alignment", what + fmt.Sprintf(": record %d of the seed reads differently when byte %d of the stream starts a read block", i, ((c.A/4096)+1)*4096)
+			}
+		}
 	case "trunc":
 		// T3b: records of a truncated stream are a prefix of the records of the full stream
 		if len(out.recs) > len(base.recs) {
@@ -612,7 +672,7 @@ func init() {
 	register(&Check{ID: "C07", Level: "model_checking", Quick: 240 * time.Second, Thor: 40 * time.Minute,
 		Run: func(r *engine.Run) bool {
 			c07LoadSeeds()
-			r.Rule = "seeds = corpus files + generated GenBank (every field kind), CONTIG-only, multi-record GenBank and FASTA, as LF and CRLF; mutations = every truncation offset, mixed line endings (one line's ending toggled, blank lines with either ending, a bare CR), every line deleted/duplicated/swapped, every offset x 12 replacement bytes (small seeds), declared LOCUS length over 0..2N, every field line's indent -3..+3, value removed, name widened; environment answers = one full read, one short read at every offset, one byte per read; string parsers: every token string up to length k over per-parser alphabets and every byte string of length <=2; history independence: every token string up to length 4-5 of the seven string parsers evaluated in ascending and in descending order in two fresh processes must get the same answer; oracle: no panic, returns within a watchdog, Len()==residues, truncated streams yield a prefix of the full stream's records, a declared length != ORIGIN count is an error; distinct key = (seed, mutation, reader); non-trivial = every mutated input"
+			r.Rule = "seeds = corpus files + generated GenBank (every field kind), CONTIG-only, multi-record GenBank and FASTA, as LF and CRLF; block alignment (the seed behind a padding record sized so that every byte of the seed in turn starts a 4096-byte read block); mutations = every truncation offset, mixed line endings (one line's ending toggled, blank lines with either ending, a bare CR), every line deleted/duplicated/swapped, every offset x 12 replacement bytes (small seeds), declared LOCUS length over 0..2N, every field line's indent -3..+3, value removed, name widened; environment answers = one full read, one short read at every offset, one byte per read; string parsers: every token string up to length k over per-parser alphabets and every byte string of length <=2; history independence: every token string up to length 4-5 of the seven string parsers evaluated in ascending and in descending order in two fresh processes must get the same answer; oracle: no panic, returns within a watchdog, Len()==residues, truncated streams yield a prefix of the full stream's records, a declared length != ORIGIN count is an error; distinct key = (seed, mutation, reader); non-trivial = every mutated input"
 			thorough := r.Tier == "thorough"
 			complete := true
 			eval := func(c c07Case, size int) bool {
@@ -740,6 +800,36 @@ func init() {
 							for _, crlf := range []bool{false, true} {
 								eval(c07Case{Kind: "scan", Seed: name, Mut: "eolmix", A: i, B: v, CRLF: crlf}, 270000+i)
 							}
+						}
+					}
+				}
+				// block alignment: the seed behind a padding record sized so that each of its bytes in turn is the first byte of a 4096-byte read block
+				if reLocusLen.Match(seed) && (small(name) || name == "NC_001422_part.gb" || thorough) {
+					for _, crlf := range []bool{false, true} {
+						if crlf && !small(name) && !thorough {
+							continue
+						}
+						sz := len(finishMut(append([]byte(nil), seed...), c07Case{CRLF: crlf}))
+						for p := 0; p < sz; p++ {
+							pad := 4096 - p
+							for pad < c07PadMin+(map[bool]int{false: 0, true: 12}[crlf]) {
+								pad += 4096
+							}
+							if crlf {
+								// the padding record grows by one byte per line when rendered with CRLF: find a size whose rendering has the wanted length
+								found := -1
+								for q := pad; q > pad-80 && q >= c07PadMin; q-- {
+									if pr := c07PadRecord(q); pr != nil && len(finishMut(pr, c07Case{CRLF: true})) == pad {
+										found = q
+										break
+									}
+								}
+								if found < 0 {
+									continue
+								}
+								pad = found
+							}
+							eval(c07Case{Kind: "scan", Seed: name, Mut: "align", A: pad, CRLF: crlf}, 280000+p)
 						}
 					}
 				}
